@@ -543,15 +543,21 @@ func (c20) Generate(r *sim.Rand, tier string) *sim.Scenario {
 		sc.Cfg["tasks"] = float64(ntasks)
 		sc.Cfg["rngstorm"] = 1
 	}
-	bigA, bigM := -1, -1
+	bigA, bigM, bigMT := -1, -1, -1
 	if big {
 		n := r.Range(32, 40)
 		sc.Steps = append(sc.Steps, sim.Step{C: sharedClient, Op: "tensorof", Out: sid, I: []int{n, n}, F: randData(r, n*n, false)})
 		bigA = sid
 		sid++
 		rows := r.Range(64, 70)
+		if r.Bool(0.5) {
+			rows = r.Range(128, 140) // >= 8192 elements
+		}
 		sc.Steps = append(sc.Steps, sim.Step{C: sharedClient, Op: "tensorof", Out: sid, I: []int{rows, 64}, F: randData(r, rows*64, false)})
 		bigM = sid
+		sid++
+		sc.Steps = append(sc.Steps, sim.Step{C: sharedClient, Op: "transpose", In: []int{bigM}, Out: sid})
+		bigMT = sid
 		sid++
 		sc.Cfg["big"] = 1
 	}
@@ -667,6 +673,8 @@ func (c20) Generate(r *sim.Rand, tier string) *sim.Scenario {
 				{C: tk, Op: "sumalong", In: []int{bigM}, I: []int{r.Intn(2)}},
 				{C: tk, Op: "transpose", In: []int{bigA}},
 				{C: tk, Op: "add", In: []int{bigM, bigM}},
+				{C: tk, Op: "matmul", In: []int{bigMT, bigM}}, // right operand of >= 4096 elements
+				{C: tk, Op: "sum", In: []int{bigM}, Out: -1},
 			}
 			for _, j := range r.Perm(len(forced))[:r.Range(1, 3)] {
 				st := forced[j]
